@@ -212,7 +212,18 @@ impl<'a> Gen<'a> {
                         out.push(G::Jump { cond: Some(c), label: skip, time: None, diff: None });
                         self.block(depth + 1, brk, Some(end), out);
                         if !(last && !has_else) {
-                            out.push(G::Jump { cond: None, label: end, time: None, diff: None });
+                            // the jump to the very end; now and then a near miss of what _gather_cond_chain accepts
+                            let j = match self.rng.below(24) {
+                                0 => { self.note("near:cond-end-jump"); G::Jump { cond: Some(self.cond()), label: end, time: None, diff: None } },
+                                1 => { self.note("near:timed-end-jump"); G::Jump { cond: None, label: end, time: Some(self.rng.range(0, 9) as i32), diff: None } },
+                                2 => match brk.or(shared_end) {
+                                    Some(other) if other != end => { self.note("near:other-end"); G::Jump { cond: None, label: other, time: None, diff: None } },
+                                    _ => G::Jump { cond: None, label: end, time: None, diff: None },
+                                },
+                                3 if self.host == Host::Ecl => { self.note("near:diff-end-jump"); G::Jump { cond: None, label: end, time: None, diff: Some(self.rng.below(DIFFS.len() as u64) as usize) } },
+                                _ => G::Jump { cond: None, label: end, time: None, diff: None },
+                            };
+                            out.push(j);
                             out.push(G::Label(skip));
                         }
                     }
